@@ -164,6 +164,18 @@ pub fn gen(seed: u64, idx: u64, tier: Tier) -> Scenario {
                 sc.steps.push(Step::Turns { n: r.range(1, 4) as u32 });
                 if r.chance(1, 2) { sc.steps.push(Step::Close { c, half: r.chance(1, 3) }); }
             }
+            _ if r.chance(1, 3) => { // a client blocked on a key that another client then turns into something that cannot be popped
+                let c = 10 + i as usize;
+                sc.steps.push(Step::Connect { c, inst: 0, buf: 0 });
+                let key = format!("kwait{}", i);
+                sc.steps.push(Step::Send { c, a: vec![b(*r.pick(&["BLPOP", "BRPOP"])), b(&key), b(*r.pick(&["0", "5"]))], split: vec![] });
+                sc.steps.push(Step::Turns { n: 2 });
+                let a = match r.below(6) { 0 => vec![b("SET"), b(&key), b("v")], 1 => vec![b("SADD"), b(&key), b("m")], 2 => vec![b("HSET"), b(&key), b("f"), b("v")], 3 => vec![b("ZADD"), b(&key), b("1"), b("m")], 4 => vec![b("XADD"), b(&key), b("*"), b("f"), b("v")], _ => vec![b("RENAME"), b(*r.pick(&["kstr", "khash", "kzset"])), b(&key)] };
+                sc.steps.push(Step::Cmd { c: 1, a, split: vec![] });
+                sc.steps.push(Step::Turns { n: 2 });
+                if r.chance(1, 2) { sc.steps.push(Step::Cmd { c: 1, a: vec![b("DEL"), b(&key)], split: vec![] }); sc.steps.push(Step::Cmd { c: 1, a: vec![b("RPUSH"), b(&key), b("x")], split: vec![] }); sc.steps.push(Step::Turns { n: 2 }); }
+                if r.chance(1, 2) { sc.steps.push(Step::Close { c, half: false }); sc.steps.push(Step::Turns { n: 2 }); }
+            }
             _ => { // a blocked or subscribed or mid-transaction connection that goes away
                 let c = 10 + i as usize;
                 sc.steps.push(Step::Connect { c, inst: 0, buf: 0 });
@@ -280,7 +292,7 @@ fn verb_of(args: &[Vec<u8>]) -> String {
 pub static DEF: CheckDef = CheckDef {
     id: "C06", level: "exploration", gen, exec,
     nontrivial: |o| o.counters.get("cmds").copied().unwrap_or(0) + o.counters.get("hostile_frames").copied().unwrap_or(0) >= 20 && o.counters.get("probes").copied().unwrap_or(0) >= 1,
-    rule: "one run = 60-150 hostile inputs against a server holding keys of all six types and sentinel data: (a0) in every third run, 80 multi-argument command templates (stream, consumer-group, sorted-set range, scan, index, expiry, script commands) whose typed holes - key, group, consumer, stream id, number, string - are filled from boundary pools; (a) a systematic walk, indexed by the run number, over (every command name extracted from the dispatch match arms of /repo's server.rs and executor.rs at check time + a static list) x argument position x 50 boundary values (0, +-1, i64/u64/u32 bounds and beyond, 1e400, nan, inf, huge digit strings, option keywords, stream-id forms), sent directly, inside MULTI/EXEC and through redis.call; (b) random commands with several boundary arguments; (c) byte-level hostile frames (absurd declared lengths, 200k-deep nesting, truncated frames then close, random bytes); (d) blocked/subscribed/mid-transaction connections that vanish; (e) in a twelfth of the runs a glob pattern with 14-24 stars against a 40-80 byte text that almost matches, through PSUBSCRIBE+PUBLISH, KEYS, SCAN MATCH and HSCAN MATCH (exponential backtracking would stall the single command thread). Oracle after every 10 inputs and at the end: no thread of the server panicked, no exit(), no deadlock, no hang (watchdog), largest single allocation <= 2 x the server's own 512 MiB value cap + 64 MiB + 8 x bytes sent (allocator seam; a request for more than 8 GiB is refused, which aborts the process), and a NEW connection gets PONG and reads the sentinel data intact; non-trivial = at least 20 hostile inputs and one probe; distinct = distinct event-log hash",
+    rule: "one run = 60-150 hostile inputs against a server holding keys of all six types and sentinel data: (a0) in every third run, 80 multi-argument command templates (stream, consumer-group, sorted-set range, scan, index, expiry, script commands) whose typed holes - key, group, consumer, stream id, number, string - are filled from boundary pools; (a) a systematic walk, indexed by the run number, over (every command name extracted from the dispatch match arms of /repo's server.rs and executor.rs at check time + a static list) x argument position x 50 boundary values (0, +-1, i64/u64/u32 bounds and beyond, 1e400, nan, inf, huge digit strings, option keywords, stream-id forms), sent directly, inside MULTI/EXEC and through redis.call; (b) random commands with several boundary arguments; (c) byte-level hostile frames (absurd declared lengths, 200k-deep nesting, truncated frames then close, random bytes); (d) blocked/subscribed/mid-transaction connections that vanish, and clients blocked on a key under which another client then stores a string / set / hash / sorted set / stream or renames one; (e) in a twelfth of the runs a glob pattern with 14-24 stars against a 40-80 byte text that almost matches, through PSUBSCRIBE+PUBLISH, KEYS, SCAN MATCH and HSCAN MATCH (exponential backtracking would stall the single command thread). Oracle after every 10 inputs and at the end: no thread of the server panicked, no exit(), no deadlock, no hang (watchdog), largest single allocation <= 2 x the server's own 512 MiB value cap + 64 MiB + 8 x bytes sent (allocator seam; a request for more than 8 GiB is refused, which aborts the process), and a NEW connection gets PONG and reads the sentinel data intact; non-trivial = at least 20 hostile inputs and one probe; distinct = distinct event-log hash",
     quick_budget_s: 45.0, thorough_budget_s: 1200.0, quick_max_runs: 1_000_000, thorough_max_runs: 100_000_000, exhaustive: false, exhaustive_after: |_| 0,
     real: REAL_WHOLE_SERVER, stub: STUB_WHOLE_SERVER, assumptions: ASSUME_COMMON,
 };
